@@ -125,7 +125,7 @@ ANCHORS = [
     "trimesh/units.py:unit_conversion",
 ]
 SHARDS = {"quick": 1, "thorough": 8}
-BUDGET = {"quick": 45, "thorough": 300}
+BUDGET = {"quick": 70, "thorough": 300}
 MIN_EVENTS = {"quick": 400, "thorough": 3000}
 ASSUMPTIONS = [
     "the reference forest of C09 gives the world matrix of a frame (product of the current edges)",
